@@ -107,4 +107,70 @@ def gen_block() -> str:
     return "".join(out)
 
 
-GENERATORS = {"GenBlockC14.v": gen_block}
+# ---- pinned call signatures of the public entry points of the anchored code ------------------------------------
+def _default_repr(v):
+    import inspect
+    if v is inspect.Parameter.empty:
+        return ""
+    if v is None or isinstance(v, (bool, int)):
+        return repr(v)
+    if callable(v) and hasattr(v, "__name__"):
+        return "fn:" + v.__name__
+    return "obj:" + type(v).__name__
+
+
+def _sig_of(fn):
+    import inspect
+    out = []
+    for prm in inspect.signature(fn).parameters.values():
+        name = prm.name
+        if prm.kind == prm.VAR_POSITIONAL:
+            name = "*" + name
+        elif prm.kind == prm.VAR_KEYWORD:
+            name = "**" + name
+        elif prm.kind == prm.KEYWORD_ONLY:
+            name = "kw:" + name
+        elif prm.kind == prm.POSITIONAL_ONLY:
+            name = "pos:" + name
+        out.append((name, _default_repr(prm.default)))
+    return out
+
+
+def gen_sigs() -> str:
+    """inspect.signature of every public callable of block.py / merkle.py and of the merkleblock entry points, as
+    (label, [(parameter, default)]); methods are taken bound (no self/cls).  Optional module-level helpers appear only
+    when present."""
+    from pycoin.block import Block
+    from pycoin import merkle as MK
+    from pycoin.symbols.btc import network as BTC
+    from pycoin.symbols.ltc import network as LTC
+    from pycoin.message import make_parser_and_packer as M
+    obj = Block(1, bytes(32), bytes(32), 0, 0, 0)
+    entries = [("Block", Block)]
+    for cm in ("parse", "parse_as_header", "from_bin", "make_subclass"):
+        entries.append(("Block." + cm, getattr(Block, cm)))
+    for m in ("set_nonce", "set_txs", "hash", "id", "previous_block_id", "stream", "stream_header", "as_bin", "as_hex",
+              "check_merkle_hash", "as_blockheader"):
+        entries.append(("Block." + m, getattr(obj, m)))
+    entries.append(("merkle", MK.merkle))
+    entries.append(("merkle_pair", MK.merkle_pair))
+    entries.append(("BTC.block.parse", BTC.block.parse))
+    entries.append(("LTC.block.parse", LTC.block.parse))
+    entries.append(("LTC.tx.parse", LTC.tx.parse))
+    entries.append(("BTC.message.parse", BTC.message.parse))
+    for opt in ("post_unpack_merkleblock",):
+        if hasattr(M, opt):
+            entries.append((opt, getattr(M, opt)))
+    out = [HEADER, "Open Scope string_scope.\n", "Definition sigs : list (string * list (string * string)) := [\n"]
+    rows = []
+    for label, fn in entries:
+        try:
+            ps = _sig_of(fn)
+        except Exception as e:
+            raise GenError("signature of %s: %s: %s" % (label, type(e).__name__, e))
+        rows.append("  (%s, [%s])" % (coq_str(label), "; ".join("(%s, %s)" % (coq_str(n), coq_str(d)) for n, d in ps)))
+    out.append(";\n".join(rows) + "\n].\n")
+    return "".join(out)
+
+
+GENERATORS = {"GenBlockC14.v": gen_block, "GenSigC14.v": gen_sigs}
